@@ -265,6 +265,13 @@ class Lab:
         for tr in reb.trades:
             i = self.index_of(tr.contract)
             px, fee = self.ledger.trade(i, tr.quantity)
+            if 0 < abs(self.ledger.q[i]) < 1e-7:
+                # Inside the documented epsilon band (Broker(epsilon=1e-7) zeroes such positions and its comment lists
+                # the consequences as a known drawback). Targets are screened against it beforehand, but the interest
+                # accrued by the rebalance itself can shrink the NLV they were screened against: such a history has
+                # left the generated domain.
+                self.ledger.q[i] = 0.0
+                self.snapped = True
             out.append((i, tr.quantity, px, fee))
         return out
 
@@ -628,6 +635,9 @@ def history_steps(case, oracle, res, out, swap=False, nlv_path=None):
                 # Solvent before trading, EndOfEpisodeError raised by the post-trade valuation: the
                 # trades were executed and their costs alone exhausted the account.
                 lab.apply_recorded_trades(reb)
+                if getattr(lab, "snapped", False):
+                    res.excluded = "position-inside-documented-epsilon-band"
+                    return
                 stats["trades"] += len(reb.trades)
                 res.tag("ruined-by-trading-costs")
                 if led.nlv() > 1e-9 * led.scale():
@@ -646,6 +656,9 @@ def history_steps(case, oracle, res, out, swap=False, nlv_path=None):
                 if oracle == "c05" and not context_consistent(res, lab, reb.context_pre, "context_pre of rebalance %s" % tag):
                     return
                 lab.apply_recorded_trades(reb)
+                if getattr(lab, "snapped", False):
+                    res.excluded = "position-inside-documented-epsilon-band"
+                    return
                 if oracle == "c05" and not context_consistent(res, lab, reb.context_post, "context_post of rebalance %s" % tag):
                     return
                 stats["rebalances"] += 1
